@@ -337,7 +337,7 @@ type Decoder struct {
 	// Canonical also rejects varints that are not in shortest form (something
 	// no conformant writer produces, though a lenient reader may accept it).
 	Canonical bool
-	depth    int
+	depth     int
 }
 
 func (d *Decoder) span(kind string, start int, v int64) {
